@@ -149,6 +149,8 @@ class LazyModel:
     def resolve_import(self, dotted):
         if dotted == "loguru.logger":
             return NoOp("logger")
+        if dotted == "warnings":
+            return NoOp("warnings")
         return NotImplemented
 
     def getattr(self, it, obj, name, node):
